@@ -22,7 +22,7 @@ it, the `Acquire` load of `wait_for_exit` that reads it); that the kernel's writ
 thread did is an assumption, exercised by the probe.  Nothing else is assumed of the environment for the repaired
 code: the theorems hold for `spurious = true` (a FUTEX_WAIT may return 0 without a wake on the word, which the
 futex contract allows — e.g. the late wake of a previous thread whose block had the same address) and for
-`loadSync = false`.  The code before commit (fix: re-check loop) called `futex_wait_fast` once and relied on both:
+`loadSync = false`.  The code before commit 2967946 called `futex_wait_fast` once and relied on both:
 `spurious_wake_breaks_join` and `relaxed_fast_path_needs_hw_ordering` are the model witnesses on that code, the
 first one replayed on the implementation with `strace -e inject=futex:retval=0`.
 -/
